@@ -212,8 +212,10 @@ func ErrClass(err error) string {
 		return "ok"
 	case errors.Is(err, chain.ErrFutureBlock):
 		return "future"
-	case strings.Contains(err.Error(), "missing parent state"):
+	case strings.Contains(err.Error(), "missing parent state"), strings.Contains(err.Error(), "missing parent for block"):
 		return "missingparent"
+	case strings.Contains(err.Error(), "only v2 blocks can be pre-validated"):
+		return "notv2"
 	case strings.Contains(err.Error(), "failed to revert failed reorg"):
 		return "rollbackfailed"
 	case strings.Contains(err.Error(), "reorg failed"):
@@ -257,6 +259,28 @@ func hdrEqual(a, b consensus.State) bool {
 	a.Elements, a.SiafundTaxRevenue, a.Attestations = b.Elements, b.SiafundTaxRevenue, b.Attestations
 	a.FoundationSubsidyAddress, a.FoundationManagementAddress = b.FoundationSubsidyAddress, b.FoundationManagementAddress
 	return bytes.Equal(mat.StateBytes(a), mat.StateBytes(b))
+}
+
+// SubmitValidated calls AddValidatedV2Blocks with the given states (the caller's validation).
+func (n *RNode) SubmitValidated(blocks []types.Block, states []consensus.State, flushAt map[int]bool, crashAt int) (cls string, ops []StoreOp, detail string) {
+	n.Store.beginCall(flushAt, crashAt)
+	defer func() {
+		ops = append([]StoreOp(nil), n.Store.Ops...)
+		if r := recover(); r != nil {
+			if _, ok := r.(crashSignal); ok {
+				cls = "crash"
+				return
+			}
+			cls = "panic"
+			detail = fmt.Sprint(r)
+		}
+	}()
+	err := n.CM.AddValidatedV2Blocks(blocks, states)
+	cls = ErrClass(err)
+	if err != nil {
+		detail = err.Error()
+	}
+	return
 }
 
 // Projection is the abstract state of Chain.tla computed through the public API.
